@@ -146,21 +146,40 @@ func c04Sequences(bound int, quick bool) [][]string {
 	return out
 }
 
-func c04Cases(retry int, tier string) []*c04Case {
+// c04RollbackSetting: the rollback budget differs from the commit budget of the same batch, so that a mix-up of
+// the two settings shows.
+func c04RollbackSetting(commit int) int {
+	switch commit {
+	case 1:
+		return 3
+	case 2:
+		return 1
+	case 3:
+		return 2
+	}
+	return 0
+}
+
+func c04Cases(commitRetry int, tier string) []*c04Case {
 	var cs []*c04Case
 	n := 0
+	retry := commitRetry
 	add := func(c c04Case) {
 		n++
 		c.Retry = retry
-		c.Name = fmt.Sprintf("c04-r%d-%04d", retry, n)
+		c.Name = fmt.Sprintf("c04-r%d-%04d", commitRetry, n)
 		cs = append(cs, &c)
 	}
 	quick := tier != "thorough"
-	bound := retry
-	if bound == 0 {
-		bound = 2 // setting 0: the sequences probe only the first attempts; the case is cut by the watchdog rule below
-	}
 	for _, o := range []string{"nil", "error", "panic"} {
+		retry = commitRetry
+		if o != "nil" {
+			retry = c04RollbackSetting(commitRetry)
+		}
+		bound := retry
+		if bound == 0 {
+			bound = 2 // setting 0: the sequences probe only the first attempts; the case is cut by the watchdog rule below
+		}
 		for _, b := range []string{"fail", "noreply", "rst"} {
 			add(c04Case{Outcome: o, Begin: b})
 		}
@@ -181,7 +200,7 @@ func c04Cases(retry int, tier string) []*c04Case {
 }
 
 func runC04(r *vc.Run, replay string) {
-	r.Rule = "cases = callback outcome {nil,error,panic} x begin {ok, failed result, no reply, session reset} x second-phase reply sequences (transport failures {no reply(20 s), reset} up to the retry bound, then success or failed result) x retry setting {0,1,2,3} x cancellation {none, before begin, in business, during phase two} + joined scopes; oracle = decision table over the TC's per-xid request log and the value returned by WithGlobalTx; distinct_nontrivial = distinct case signatures whose transaction reached the TC (GlobalBegin observed)"
+	r.Rule = "cases = callback outcome {nil,error,panic} x begin {ok, failed result, no reply, session reset} x second-phase reply sequences (transport failures {no reply(20 s), reset} up to the retry bound, then success or failed result) x retry settings (commit,rollback) in {(1,3),(2,1),(3,2),(0,0)} x cancellation {none, before begin, in business, during phase two} + joined scopes; oracle = decision table over the TC's per-xid request log and the value returned by WithGlobalTx; distinct_nontrivial = distinct case signatures whose transaction reached the TC (GlobalBegin observed)"
 	r.Assumptions = []string{"fake TC (harness/faketc) on the independent wire codec; a 'transport failure' is a request that gets no reply within the client's 20 s wait, or a session reset before the reply",
 		"retry setting 0 is judged against the documented default bound of 5 attempts (any finite count <= 5 accepted)"}
 	retries := []int{1, 2, 3, 0}
@@ -263,7 +282,7 @@ func c04Batch(r *vc.Run, retry int, cases []*c04Case, concurrent bool, name stri
 		return
 	}
 	defer ch.Kill()
-	if err := ch.Call("set_tm", map[string]int{"commit_retry": retry, "rollback_retry": retry}, nil); err != nil {
+	if err := ch.Call("set_tm", map[string]int{"commit_retry": retry, "rollback_retry": c04RollbackSetting(retry)}, nil); err != nil {
 		r.Errorf("set_tm: %v", err)
 		return
 	}
